@@ -151,7 +151,8 @@ class Tracker:
 
             # Advection
             if self.vertical_advection:
-                W = force.variables["w"]
+                # The state variable follows the particles when the state is compactified
+                W = state["w"] if "w" in state.variables else force.variables["w"]
                 Z += W * self.dt
 
             # Reflexive boundary conditions at surface
